@@ -136,6 +136,44 @@ def build(desc, mode="fmtstr"):
     return out
 
 
+class TaggedStr(str):
+    """a str subclass as applications have them (marker types, str-mixin enums): its characters are its value, whatever
+    str() and repr() choose to print for it"""
+
+    def __str__(self):
+        return "<tagged:%d>" % len(self)
+
+    def __repr__(self):
+        return "TaggedStr(%d)" % len(self)
+
+
+class PlainSub(str):
+    """a str subclass that overrides nothing"""
+
+
+_SUB = None
+
+
+def fmtstr_subclass():
+    """an application's FmtStr subclass: extra state and its own constructor signature"""
+    global _SUB
+    if _SUB is None:
+        from curtsies.formatstring import FmtStr
+
+        class Labelled(FmtStr):
+            def __init__(self, label, chunks):
+                super().__init__(*chunks)
+                self.label = label
+
+        _SUB = Labelled
+    return _SUB
+
+
+def as_subclass(f):
+    """the same value as an instance of the subclass"""
+    return fmtstr_subclass()("label", list(f.chunks))
+
+
 def apply_layer(f, outer, how=0):
     """formatting applied on top of an existing (possibly multi-run) FmtStr through the public constructors"""
     from curtsies.formatstring import fmtstr
